@@ -73,8 +73,9 @@ Theorem C20_branches : forall ops, H_val ops -> H_div ops -> H_pow ops ->
           /\ (Qabs (Mg ops (fdiv ops x p) * q10 k - Mg ops x) <= eps51 * Mg ops x)%Q).
 Proof. intros ops Hv Hd Hp x err. exact (branches_thm ops Hv Hd Hp x err). Qed.
 
-(* The property: for every finite x and finite err > 0 in the stated domain (in_range: err a
-   normal binary64 below 9.9999995e307, |x| <= 1e300, x = 0 or 1e-12 <= err/|x| <= 1e12) the
+(* The property: for every finite x and finite err > 0 in the stated domain (in_range: err any
+   normal binary64 up to the largest finite one, |x| <= 1e300, x = 0 or
+   1e-12 <= err/|x| <= 1e12) the
    function returns a string that reads back as (X, E, u) with E two digits (10 u .. 99 u),
    |X - x| <= u/2 + 2^-51 |x| and |E - err| <= u/2 + 2^-51 err. *)
 Theorem C20_full : forall ops, H_val ops -> H_div ops -> H_pow ops ->
@@ -106,14 +107,15 @@ Proof.
   apply Sg_false. exact He.
 Qed.
 
-(* REFUTED on the whole stated domain ("any err for x = 0", every finite err): for the
-   binary64 nearest 1e308 the exponent is 309 and 10**309 cannot be converted to a float; the
-   function raises OverflowError instead of returning a string.  in_range excludes
-   err >= 9.9999995e307 for this reason. *)
-Theorem C20_full_refuted_overflow :
+(* Why the cap x_exponent = min(x_exponent, 308) is there: the function as it was before the
+   repair (format_old, no cap) raises OverflowError for the binary64 nearest 1e308 with x = 0
+   -- the exponent is 309 and 10**309 cannot be converted to a float -- although the input is
+   in the stated domain ("any err for x = 0").  The repaired function formats it. *)
+Theorem C20_overflow_refuted_old :
   exists x err : Q, (x == 0)%Q /\ (0 < err)%Q /\ pow10_q 308 = Ok err
-                    /\ format ops_table x err = Err E_Overflow.
-Proof. exact full_refuted_overflow_lemma. Qed.
+                    /\ format_old ops_table x err = Err E_Overflow
+                    /\ format ops_table x err = Ok "0.0(10)e+308"%string.
+Proof. exact overflow_refuted_old_lemma. Qed.
 
 (* the tie: the definition regenerated from utils.py on this run is the model *)
 Theorem C20_code_tie : forall (ops : fops) (x err : FT ops),
@@ -143,9 +145,18 @@ Example C20_example_in_range :
   (0 <= dec 6424 1)%Q /\ in_range (Qabs (dec (-128124123097) 1)) (Qabs (dec 6424 1)).
 Proof.
   split; [vm_compute; discriminate|].
-  split; [vm_compute; discriminate|]. split; [vm_compute; reflexivity|].
+  split; [vm_compute; discriminate|]. split; [vm_compute; discriminate|].
   split; [vm_compute; discriminate|]. right.
   split; vm_compute; discriminate.
+Qed.
+
+(* ... and at the largest finite binary64 with x = 0 (the cap is active) *)
+Example C20_example_huge :
+  in_range (Qabs 0) (Qabs fmax) /\ format ops_table 0%Q fmax = Ok "0.0(18)e+308"%string.
+Proof.
+  split; [|vm_compute; reflexivity].
+  split; [vm_compute; discriminate|]. split; [vm_compute; discriminate|].
+  split; [vm_compute; discriminate|]. left. reflexivity.
 Qed.
 
 (* and those of C20_core at 99.9 +- 9.96 (the rounding that carries into the next decade) *)
@@ -159,5 +170,5 @@ Print Assumptions C20_branches.
 Print Assumptions C20_full.
 Print Assumptions C20_pow10_table.
 Print Assumptions C20_full_table.
-Print Assumptions C20_full_refuted_overflow.
+Print Assumptions C20_overflow_refuted_old.
 Print Assumptions C20_code_tie.
